@@ -326,15 +326,18 @@ theorem R_afterTag {text : Bytes} {s : CSt} (hst : TagSt s) (pos' : Nat)
 theorem beforeName_cases {tag : Bytes} {c : UInt8} (hg : beforeName tag c ≠ .bad) (h1 : ws c = false)
     (h2 : c ≠ 0x2f) (h3 : c ≠ 0x3e) : nameStart c ∧ beforeName tag c = .attrName tag [lower c] := by
   by_cases h4 : c = 0x3d ∨ attrNameBad c = true
-  · exfalso; apply hg; rcases h4 with h4 | h4 <;> simp [beforeName, h1, h2, h3, h4]
+  · exfalso; apply hg
+    rcases h4 with h4 | h4
+    · subst h4; simp [beforeName, ws]
+    · simp [beforeName, h1, h2, h3, h4]
   · simp only [not_or] at h4
     have h5 : attrNameBad c = false := by simpa using h4.2
     refine ⟨⟨h1, h2, h3, h4.1, h5⟩, ?_⟩
     simp [beforeName, h1, h2, h3, h4.1, h5]
 
-theorem AttrRef_congr {text : Bytes} {s s' : CSt} {r : RSt} (h1 : s'.pos = s.pos) (h2 : s'.ctx = s.ctx)
-    (h3 : s'.tagName = s.tagName) (h4 : s'.tagAttr = s.tagAttr) (h5 : s'.quote = s.quote)
-    (h : AttrRef text s r) : AttrRef text s' r := by
+theorem AttrRef_congr {text : Bytes} {s s' : CSt} {r : RSt} (h : AttrRef text s r) (h1 : s'.pos = s.pos)
+    (h2 : s'.ctx = s.ctx) (h3 : s'.tagName = s.tagName) (h4 : s'.tagAttr = s.tagAttr)
+    (h5 : s'.quote = s.quote) : AttrRef text s' r := by
   cases r <;> simp only [AttrRef, h1, h2, h3, h4, h5] at h ⊢ <;> exact h
 
 theorem step_tag {U : Unicode} {text : Bytes} {n : Nat} (H : Hole text n) {s : CSt} (hlt : s.pos < n)
@@ -406,12 +409,12 @@ theorem step_tag {U : Unicode} {text : Bytes} {n : Nat} (H : Hole text n) {s : C
         have he := cstep_eq hc hsw
         simp only [Bool.false_eq_true, if_false] at he
         refine StepOK.intro he hqn ?_ (Or.inl (by simp; omega))
-        exact R_attr ⟨ht1, ht4, hu.symm, hdone⟩ (AttrRef_congr rfl rfl rfl rfl rfl hrq)
+        exact R_attr ⟨ht1, ht4, hu.symm, hdone⟩ (AttrRef_congr hrq rfl rfl rfl rfl rfl)
       · simp only [hu, if_false] at hsw
         have he := cstep_eq hc hsw
         simp only [Bool.false_eq_true, if_false] at he
         refine StepOK.intro he hqn ?_ (Or.inl (by simp; omega))
-        refine R_attr ⟨ht1, ht4, ?_, hdone⟩ (AttrRef_congr rfl rfl rfl rfl rfl hrq)
+        refine R_attr ⟨ht1, ht4, ?_, hdone⟩ (AttrRef_congr hrq rfl rfl rfl rfl rfl)
         show s.url = containsURL s.tagName attr
         rw [ht3]; simpa using hu
     · simp only [hq, if_false, ht2, if_true] at hsw
@@ -430,13 +433,143 @@ theorem step_tag {U : Unicode} {text : Bytes} {n : Nat} (H : Hole text n) {s : C
         have he := cstep_eq hc hsw
         simp only [Bool.false_eq_true, if_false] at he
         refine StepOK.intro he hn2 ?_ (Or.inl hn1)
-        exact R_attr ⟨ht1, ht4, hu.symm, hdone⟩ (AttrRef_congr rfl rfl rfl rfl ht2.symm hrq)
+        exact R_attr ⟨ht1, ht4, hu.symm, hdone⟩ (AttrRef_congr hrq rfl rfl rfl rfl ht2.symm)
       · simp only [hu, if_false] at hsw
         have he := cstep_eq hc hsw
         simp only [Bool.false_eq_true, if_false] at he
         refine StepOK.intro he hn2 ?_ (Or.inl hn1)
-        refine R_attr ⟨ht1, ht4, ?_, hdone⟩ (AttrRef_congr rfl rfl rfl rfl ht2.symm hrq)
+        refine R_attr ⟨ht1, ht4, ?_, hdone⟩ (AttrRef_congr hrq rfl rfl rfl rfl ht2.symm)
         show s.url = containsURL s.tagName attr
         rw [ht3]; simpa using hu
+
+/-! ## attribute-value contexts -/
+
+theorem typeAttrP_done (U : Unicode) (text : Bytes) (s : CSt) (hd : attrDone s.tagName s.tagAttr = true) :
+    typeAttrP U text s = s.tagCtx := by
+  simp only [typeAttrP, strBytes_type, strBytes_script, strBytes_style]
+  by_cases h1 : s.tagAttr = sType
+  · have h2 : s.tagName ≠ sScript := by
+      intro h; rw [h, h1] at hd; revert hd; decide
+    have h3 : s.tagName ≠ sStyle := by
+      intro h; rw [h, h1] at hd; revert hd; decide
+    simp [h1, h2, h3]
+  · simp [h1]
+
+theorem caseAttrP_end (U : Unicode) (text : Bytes) (s : CSt) (c : UInt8)
+    (hd : attrDone s.tagName s.tagAttr = true)
+    (hcond : (s.ctx = ContextQuotedAttr ∧ c = s.quote) ∨
+      (s.ctx = ContextUnquotedAttr ∧ (c = 0x3e ∨ isASCIISpace c = true))) :
+    caseAttrP U text s c =
+      ({ s with quote := 0, url := false, ctx := ContextTag, tagAttr := [], tagIndex := 0 },
+        !(c == 0x3e)) := by
+  simp only [caseAttrP, hcond, if_true]
+  cases hu : s.url
+  · by_cases h3 : c = 0x3e <;> simp [h3] <;> exact typeAttrP_done U text _ hd
+  · by_cases h3 : c = 0x3e <;> simp [h3]
+
+theorem caseAttrP_stay (U : Unicode) (text : Bytes) (s : CSt) (c : UInt8)
+    (hcond : ¬ ((s.ctx = ContextQuotedAttr ∧ c = s.quote) ∨
+      (s.ctx = ContextUnquotedAttr ∧ (c = 0x3e ∨ isASCIISpace c = true)))) :
+    caseAttrP U text s c = (s, true) := by
+  simp only [caseAttrP, hcond, if_false]
+
+theorem step_attr {U : Unicode} {text : Bytes} {n : Nat} (H : Hole text n) {s : CSt} (hlt : s.pos < n)
+    (hst : AttrSt s) (hr : AttrRef text s (rs text s.pos)) : StepOK U text n s := by
+  obtain ⟨c, hc⟩ := H.get (Nat.le_of_lt hlt)
+  have hg := H.step hlt hc
+  obtain ⟨ht1, ht2, ht3, ht4⟩ := hst
+  have hctx : s.ctx = ContextQuotedAttr ∨ s.ctx = ContextUnquotedAttr := by
+    generalize rs text s.pos = r at hr
+    cases r <;> first | exact False.elim hr | exact Or.inl hr.2.2.1 | exact Or.inr hr.2.2.1
+  have hsw0 : ctxSwitchP U text s c = caseAttrP U text s c := by
+    rcases hctx with h | h <;>
+      simp [ctxSwitchP, h, ContextQuotedAttr, ContextUnquotedAttr, ContextHTML, ContextTag]
+  have hstay : ∀ r', ¬ ((s.ctx = ContextQuotedAttr ∧ c = s.quote) ∨
+      (s.ctx = ContextUnquotedAttr ∧ (c = 0x3e ∨ isASCIISpace c = true))) →
+      rstep (rs text s.pos) c = r' → (∀ p, AttrRef text { s with pos := p } r') →
+      (c = 0x0a → rstep r' 0x0d = r') → StepOK U text n s := by
+    intro r' hcond hr' hA hcr
+    have hsw := hsw0.trans (caseAttrP_stay U text s c hcond)
+    apply tail_ok H hlt hc hsw rfl
+    · refine R_attr (by exact ⟨ht1, ht2, ht3, ht4⟩) ?_
+      show AttrRef text _ (rs text (s.pos + 1))
+      rw [rs_succ hc, hr']; exact hA _
+    · intro hc1 hc2 _
+      refine R_attr (by exact ⟨ht1, ht2, ht3, ht4⟩) ?_
+      show AttrRef text _ (rs text (s.pos + 1 + 1))
+      rw [rs_succ hc2, rs_succ hc, hr', hcr hc1]; exact hA _
+  have hend : ∀ r', ((s.ctx = ContextQuotedAttr ∧ c = s.quote) ∨
+      (s.ctx = ContextUnquotedAttr ∧ (c = 0x3e ∨ isASCIISpace c = true))) → c ≠ 0x3e →
+      rstep (rs text s.pos) c = r' → (∀ p, TagRef text p s.tagName r') →
+      (c = 0x0a → rstep r' 0x0d = r') → StepOK U text n s := by
+    intro r' hcond h3 hr' hA hcr
+    have hsw := hsw0.trans (caseAttrP_end U text s c ht4 hcond)
+    have hb : (!(c == 0x3e)) = true := by simp [h3]
+    rw [hb] at hsw
+    have hts : TagSt { s with quote := 0, url := false, ctx := ContextTag, tagAttr := [], tagIndex := 0 } :=
+      ⟨ht1, rfl, rfl, ht2⟩
+    apply tail_ok H hlt hc hsw rfl
+    · refine R_tag rfl (by exact hts) ?_
+      show TagRef text _ s.tagName (rs text (s.pos + 1))
+      rw [rs_succ hc, hr']; exact hA _
+    · intro hc1 hc2 _
+      refine R_tag rfl (by exact hts) ?_
+      show TagRef text _ s.tagName (rs text (s.pos + 1 + 1))
+      rw [rs_succ hc2, rs_succ hc, hr', hcr hc1]; exact hA _
+  have hgt : s.ctx = ContextUnquotedAttr → c = 0x3e →
+      TagRef text s.pos s.tagName (rs text s.pos) → StepOK U text n s := by
+    intro hu h3 hT
+    have hsw := hsw0.trans (caseAttrP_end U text s c ht4 (Or.inr ⟨hu, Or.inl h3⟩))
+    have hb : (!(c == 0x3e)) = false := by simp [h3]
+    rw [hb] at hsw
+    have he := cstep_eq hc hsw
+    simp only [Bool.false_eq_true, if_false] at he
+    refine StepOK.intro he (Nat.le_of_lt hlt) ?_ (Or.inr ⟨rfl, hu, rfl⟩)
+    exact R_tag rfl ⟨ht1, rfl, rfl, ht2⟩ hT
+  have hqu : ContextQuotedAttr ≠ ContextUnquotedAttr := by decide
+  generalize hrr : rs text s.pos = r at hr hg hstay hend hgt
+  cases r <;> simp only [AttrRef] at hr
+  · -- before attribute value, at the first byte of an unquoted value
+    obtain ⟨rfl, rfl, hcx, hq, hcond⟩ := hr
+    obtain ⟨c1, c2, c3⟩ := hcond c hc
+    by_cases h3 : c = 0x3e
+    · exact hgt hcx h3 ⟨rfl, by rw [← h3]; exact hc⟩
+    · refine hstay (.attrValUnq s.tagName s.tagAttr) ?_ ?_ (fun p => ⟨rfl, rfl, hcx, hq⟩) ?_
+      · rw [hcx, space_ws, c1]; simp [h3, hqu.symm]
+      · simp [rstep, c1, c2, c3, h3]
+      · intro h; subst h; exact absurd c1 (by decide)
+  · obtain ⟨rfl, rfl, hcx, hq⟩ := hr
+    by_cases h : c = 0x22
+    · subst h
+      refine hend (.afterAttrValQ s.tagName) (Or.inl ⟨hcx, hq.symm⟩) (by decide) ?_ (fun p => rfl) ?_
+      · simp [rstep]
+      · intro h; exact absurd h (by decide)
+    · refine hstay (.attrValDq s.tagName s.tagAttr) ?_ ?_ (fun p => ⟨rfl, rfl, hcx, hq⟩) ?_
+      · rw [hcx, hq]; simp [h, hqu]
+      · simp [rstep, h]
+      · intro _; simp [rstep]
+  · obtain ⟨rfl, rfl, hcx, hq⟩ := hr
+    by_cases h : c = 0x27
+    · subst h
+      refine hend (.afterAttrValQ s.tagName) (Or.inl ⟨hcx, hq.symm⟩) (by decide) ?_ (fun p => rfl) ?_
+      · simp [rstep]
+      · intro h; exact absurd h (by decide)
+    · refine hstay (.attrValSq s.tagName s.tagAttr) ?_ ?_ (fun p => ⟨rfl, rfl, hcx, hq⟩) ?_
+      · rw [hcx, hq]; simp [h, hqu]
+      · simp [rstep, h]
+      · intro _; simp [rstep]
+  · obtain ⟨rfl, rfl, hcx, hq⟩ := hr
+    by_cases h3 : c = 0x3e
+    · exact hgt hcx h3 ⟨rfl, by rw [← h3]; exact hc⟩
+    · by_cases h1 : ws c = true
+      · refine hend (.beforeAttrName s.tagName) (Or.inr ⟨hcx, Or.inr (by rw [space_ws]; exact h1)⟩) h3 ?_
+          (fun p => rfl) ?_
+        · simp [rstep, h1]
+        · intro _; simp [rstep, beforeName, ws]
+      · have h1' : ws c = false := by simpa using h1
+        refine hstay (.attrValUnq s.tagName s.tagAttr) ?_ ?_ (fun p => ⟨rfl, rfl, hcx, hq⟩) ?_
+        · rw [hcx, space_ws, h1']; simp [h3, hqu.symm]
+        · simp [rstep, h1', h3]
+        · intro h; subst h; exact absurd h1' (by decide)
 
 end ScriggoV.LexCtx
